@@ -389,7 +389,7 @@ pub fn trial(prop: &str, i: u64, rng: &mut Rng, out: &mut Outcome, dir: &std::pa
 // welcomes, key packages, binding strings (L4)
 // --------------------------------------------------------------------------------------------
 
-fn l4_trial(prop: &str, i: u64, rng: &mut Rng, out: &mut Outcome, dir: &std::path::Path) {
+pub fn l4_trial(prop: &str, i: u64, rng: &mut Rng, out: &mut Outcome, dir: &std::path::Path) {
     let mut a = arena(rng, dir, &format!("c06w-{i}"), BackendKind::Memory, VictimState::Idle);
     out.evaluations += 1;
     let v = a.victim;
@@ -493,6 +493,7 @@ fn l4_trial(prop: &str, i: u64, rng: &mut Rng, out: &mut Outcome, dir: &std::pat
                 labels.push(format!("L4w:{label} -> Ok"));
             }
             Ok(Err(e)) => {
+                crate::capture::error("process_welcome", &e);
                 out.count("refusals_checked");
                 labels.push(format!("L4w:{label} -> Err({})", error_variant(&e)));
                 let after = client_snapshot(&a.w, v);
@@ -572,7 +573,7 @@ fn l4_trial(prop: &str, i: u64, rng: &mut Rng, out: &mut Outcome, dir: &std::pat
         };
         let ev = EventBuilder::new(kind, content).tags(tags).sign_with_keys(&signer).unwrap();
         let before = client_snapshot(&a.w, v);
-        let res = std::panic::catch_unwind(std::panic::AssertUnwindSafe(|| with_mdk!(a.w.clients[v].mdk, x => x.parse_key_package(&ev).map(|_| ()))));
+        let res = std::panic::catch_unwind(std::panic::AssertUnwindSafe(|| with_mdk!(a.w.clients[v].mdk, x => x.parse_key_package(&ev).map(|_| ()).map_err(|e| { crate::capture::error("parse_key_package", &e); e }))));
         out.count("hostile_inputs");
         out.count("inputs_L4_keypackage");
         out.note("input_kinds", format!("L4k:{label}"));
@@ -626,7 +627,7 @@ fn hostile_strings(rng: &mut Rng) -> Vec<String> {
     ]
 }
 
-fn uniffi_trial(prop: &str, i: u64, rng: &mut Rng, out: &mut Outcome, dir: &std::path::Path) {
+pub fn uniffi_trial(prop: &str, i: u64, rng: &mut Rng, out: &mut Outcome, dir: &std::path::Path) {
     use mdk_uniffi as u;
     out.evaluations += 1;
     let path = dir.join(format!("uni-{i}.db"));
@@ -642,7 +643,13 @@ fn uniffi_trial(prop: &str, i: u64, rng: &mut Rng, out: &mut Outcome, dir: &std:
     let mut labels = vec![];
     macro_rules! probe {
         ($name:expr, $e:expr) => {{
-            let r = std::panic::catch_unwind(std::panic::AssertUnwindSafe(|| $e.is_ok()));
+            let r = std::panic::catch_unwind(std::panic::AssertUnwindSafe(|| match $e {
+                Ok(_) => true,
+                Err(e) => {
+                    crate::capture::error(concat!("uniffi:", $name), &e);
+                    false
+                }
+            }));
             calls += 1;
             match r {
                 Err(p) => {
